@@ -191,6 +191,10 @@ def observe(case):
 
 def observe_many(cases):
     """Worker entry point (also used in-process).  Returns [trace | {"error": repr}] in order."""
+    # the arrays are tiny: one XLA / BLAS thread per worker process (set before jax is first imported there)
+    os.environ.setdefault("XLA_FLAGS", "--xla_cpu_multi_thread_eigen=false intra_op_parallelism_threads=1")
+    for v in ("OMP_NUM_THREADS", "OPENBLAS_NUM_THREADS", "MKL_NUM_THREADS"):
+        os.environ.setdefault(v, "1")
     common.setup_paths()
     out = []
     for c in cases:
@@ -212,12 +216,25 @@ def observe_parallel(cases, nproc):
     if nproc <= 1 or len(cases) < 400:
         return observe_many(cases)
     import multiprocessing as mp
-    size = (len(cases) + 2 * nproc - 1) // (2 * nproc)
-    chunks = [cases[i:i + size] for i in range(0, len(cases), size)]
+    # blocks: each random mesh (function-space construction dominates) is a block of its own, scheduled first;
+    # the TLC-derived cases follow in contiguous blocks of equal size
+    idx_rand, idx_tlc = {}, []
+    for i, c in enumerate(cases):
+        if c.get("src") == "tlc":
+            idx_tlc.append(i)
+        else:
+            idx_rand.setdefault(json.dumps(c["mesh"], sort_keys=True), []).append(i)
+    size = max(1, (len(idx_tlc) + 3 * nproc - 1) // (3 * nproc))
+    blocks = list(idx_rand.values()) + [idx_tlc[i:i + size] for i in range(0, len(idx_tlc), size)]
+    chunks = [[cases[i] for i in b] for b in blocks]
     try:
         with mp.get_context("spawn").Pool(nproc) as pool:
             parts = pool.map(observe_many, chunks, chunksize=1)
-        return [t for p in parts for t in p]
+        out = [None] * len(cases)
+        for b, p in zip(blocks, parts):
+            for i, t in zip(b, p):
+                out[i] = t
+        return out
     except Exception as ex:                 # pool trouble is not a property failure: fall back
         print("C14: worker pool unavailable (%r), running in-process" % (ex,))
         return observe_many(cases)
